@@ -3,6 +3,10 @@ FIX_COMMITS = ["f30b07ca", "4730a169", "b021ba71", "6b5e0bb5", "facba332", "c360
 PENDING = "check not built yet (construction in progress, see DESIGN.md section 7); no claim is made"
 NOT_APPLICABLE = {("C%02d" % i): PENDING for i in range(1, 21)}
 CHECKS = {
+ "C14": dict(
+  technique="model-based runtime monitoring: reference map (kind, number) -> content token kept by the generator, compared after every operation with DUMP -all, component list and errors of the real engine; RUN_CELLS instance vs explicit USE/SAVE instance (differential, 1 case in 8 under ASan+UBSan)",
+  level="seeded histories of 20 (quick) / 60 (thorough) single-operation simulations over 11 entity kinds and numbers 1..8: definitions with ranges, batch reactions with USE of any subset + SAVE to single numbers/ranges, COPY single/range/cell incl. absent sources and source inside the target range, DELETE lists/ranges/cell/all, SOLUTION/EQUILIBRIUM_PHASES/KINETICS/GAS_PHASE/REACTION_TEMPERATURE _MODIFY, SOLUTION_MIX, MIX+SAVE, re-speciation USE+SAVE, RUN_CELLS; after each: key set equality, untouched entries textually unchanged, entries of common origin textually identical, MODIFY touched only the named line, totals of re-saved/mixed solutions follow the current content (1e-8), RUN_CELLS == explicit sequence (1e-8 on conserved quantities, T, P, water and all reactant fields), components superset",
+  note="negative user numbers are not observable through DUMP and are not generated; kinetic reactants used in a reaction may change in place; histories stop at the first simulation reporting an error"),
  "C13": dict(
   technique="model-based runtime monitoring under ASan+UBSan: executable reference model of registry + settings store, every accessor called through the C++ method, the C function and the Fortran glue on the same object and compared in place",
   level="bounded-exhaustive registry sequences (8-letter alphabet, length <=3 quick / <=4 thorough: create via each binding, destroy first/last live, double destroy, never-issued/negative ids, look-up of every id) plus seeded random histories (25-70 calls, <=4 live instances) over all setters (valid/NULL/empty/long/odd values), current-number changes, loads, 5 run inputs defining 6 selected-output numbers (incl. a heading-only table), a failing run, accumulate/clear/run-accumulated, AddError/AddWarning, invalid-id bursts with digest-unchanged checks, and three-binding probes of 34 plain + 8 indexed accessors and of table cells (in and out of range, Value/Value2/ValueF)",
